@@ -117,7 +117,7 @@ CASES = [
     # is left" is false although it holds when the loop runs over a snapshot
     C('drop_evens_live', lambda cx: dict(xs=cx.box('xs', IS)),
       good=["len(result) <= len(old(xs))"], bad=["forall(lambda j: implies(0 <= j and j < len(result), result[j] % 2 == 1))"],
-      loops={'L1': LoopSpec(inv=["len(xs) <= len(old(xs))", "0 <= _i"], modifies=['xs'], live=True)}),
+      loops={'L1': LoopSpec(inv=["len(xs) <= len(old(xs))", "0 <= _i"], modifies=['xs'], live=True, decreases="len(xs) - _i")}),
 ]
 # exceptions that must be seen: (case, exception) - without the raises clause the safety obligation has to fail
 MUST_RAISE = [('lookup_all', 'KeyError'), ('pop_middle', 'IndexError')]
@@ -253,6 +253,11 @@ def main():
     r = verify(contract_of(case, case['good']), [], timeout_ms=800)
     if not (r.error and 'live=True' in r.error):
         failures.append('drop_evens_live: a loop that changes the list it iterates was verified against a snapshot (UNSOUND): %s' % r.error)
+    # ... and a wrong termination measure of such a loop is refused (the list alone does not shrink when nothing is removed)
+    case['loops'] = {'L1': LoopSpec(inv=["len(xs) <= len(old(xs))", "0 <= _i"], modifies=['xs'], live=True, decreases="len(xs)")}
+    r = verify(contract_of(case, case['good']), [], timeout_ms=800)
+    if not any(o['name'] == 'decreases:L1' and o['status'] != 'unsat' for o in r.obligations):
+        failures.append('drop_evens_live: a wrong termination measure of a live loop was accepted (UNSOUND)')
     runs, bad = differential(random.Random(int(os.environ.get('VERIF_SEED', '0') or 0)), int(os.environ.get('SELFTEST_N', '25')))
     for name, args, want, got in bad[:10]:
         failures.append('differential %s%r: CPython %r, interpreter %r' % (name, args, want, got))
